@@ -492,6 +492,9 @@ func run(c *lib.Ctx) error {
 		return lib.Infra("%d generated documents are not what the model says (generator defect):\n  %s", n, strings.Join(p.defects, "\n  "))
 	}
 	vc, vo := vacuityCases()
+	if len(vc) == 0 {
+		return lib.Infra("vacuity guard: the base recording could not be produced")
+	}
 	cases, owners = append(cases, vc...), append(owners, vo...)
 	if err := p.judge(cases, owners, keyOf); err != nil {
 		return err
@@ -514,8 +517,8 @@ func keyOf(in input, rel string, w int) string {
 func vacuityCases() ([]caseRec, []input) {
 	x := "a *b* c d e f g h i j k l m n o p q r s t u v w x y z\n\n- `q r`\n"
 	base, _, pn := record(0, "vacuity", x, reflowWidths)
-	if pn != nil {
-		return nil, nil // reported through the corpus of generated documents
+	if pn != nil || len(base.Rf) < 3 || base.Rf[1].W != 20 {
+		return nil, nil // reported as missing by the caller
 	}
 	mk := func(f func(r *caseRec)) caseRec {
 		b, _ := json.Marshal(base)
